@@ -1,7 +1,11 @@
 use std::sync::OnceLock;
 
 use crossbeam_utils::CachePadded;
+#[cfg(not(feature = "verif"))]
 use parking_lot::RwLock;
+
+#[cfg(feature = "verif")]
+use crate::verif::RwLock;
 
 pub fn default_shard_amount() -> usize {
     static DEFAULT_SHARD_AMOUNT: OnceLock<usize> = OnceLock::new();
